@@ -7,6 +7,7 @@ TN = ("E2: bounded symbolic execution of the crate's MIR (regenerated from /repo
 CHECKS = {
  'C01': ('E2 templates: eq/slots/symmetries never exceed the oracle closure', 'model_checking', '§4 C01'),
  'C02': ('E2 templates: every equality / redundancy / symmetry of the oracle closure is reported right after union returns', 'model_checking', '§4 C02'),
+ 'C03': ('E2 templates over the harness language Lm (variables, +, *, summation binder, let binder) with rule sets that are valid in the finite model GF(3): apply_rewrites from MIR (pattern_subst incl. the substitution form b[x := t] under both SubstMethods via trait-object dispatch, conditional rules with the condition closure from MIR, rules that move terms under binders or re-bind); after every call every class is dumped through enodes_applied and evaluated exhaustively over all environments: all e-nodes of a class denote the same function of the class slots, further (redundant) slots of a node do not influence its value, every inserted term still denotes what its class denotes', 'model_checking', '§4 C03'),
  'C04': ('E2 templates with rewrite steps: the real apply_rewrites (Rewrite::new, boxed searcher/applier, ematch_all, union_instantiations) from MIR on template final states; every oracle instance of a left side has its right side represented and equal afterwards', 'model_checking', '§4 C04'),
  'C05': ('E2 templates with matching steps: every substitution returned by ematch_all binds all variables, its instance is found by lookup alone, matching leaves the e-graph unchanged; pattern slot names range over every slot issued before; multi-pattern matcher: every equation of a returned substitution holds', 'model_checking', '§4 C05'),
  'C14': ('E2 templates with the analyses MinSize and Depth of the harness crate (make/merge dispatched to their MIR): after every operation each class datum equals the oracle least value over all represented terms and the merge-fold of the crate own make over the class e-nodes; analyses with a modify hook outside', 'model_checking', '§4 C14'),
@@ -24,7 +25,6 @@ CHECKS = {
  'C12': ('E2 templates and their reorderings (insertion order, union order, orientation) agree per coincidence pattern', 'model_checking', '§4 C12'),
 }
 NA = {
- 'C03': 'needs a model evaluator oracle and substitution-pattern execution that were not built; see DESIGN.md §4 C03',
  'C07': 'explanations feature not reachable by the encoder within budget; see DESIGN.md §4 C07',
  'C20': 'thread/hash-seed reproducibility is invisible to a single-threaded symbolic encoding; see DESIGN.md §4 C20',
 }
